@@ -12,6 +12,7 @@ import (
 	"time"
 
 	"github.com/netflix/rend/handlers"
+	"github.com/netflix/rend/handlers/memcached/batched"
 	"github.com/netflix/rend/handlers/memcached/chunked"
 	"github.com/netflix/rend/handlers/memcached/std"
 	"github.com/netflix/rend/orcas"
@@ -196,7 +197,15 @@ type Config struct {
 	MultiRd bool   `json:"multi_reader"`
 	L1      string `json:"l1"`    // std | chunked
 	Proto   string `json:"proto"` // bin | text
+	// L1Sock / L2Sock: when set, that tier is served by the batching handler (handlers/memcached/
+	// batched) over the unix socket on which the fake backend listens, instead of a std handler
+	// with its own connection
+	L1Sock string `json:"l1_sock,omitempty"`
+	L2Sock string `json:"l2_sock,omitempty"`
 }
+
+// BatchOpts are the options of the batching pools used for L1Sock/L2Sock.
+var BatchOpts = batched.Opts{BatchSize: 4, BatchDelayMicros: 200}
 
 // Backends are the two fake memcacheds of one deployment.
 type Backends struct {
@@ -256,16 +265,19 @@ type Conn struct {
 func Dial(b *Backends, cfg Config) *Conn {
 	cl, srv := BufPipe()
 	var l1 handlers.Handler
-	l1conn := b.L1.Pipe()
-	switch cfg.L1 {
-	case "chunked":
-		l1 = chunked.NewHandler(l1conn)
+	switch {
+	case cfg.L1Sock != "":
+		l1 = batched.NewHandler(cfg.L1Sock, BatchOpts)
+	case cfg.L1 == "chunked":
+		l1 = chunked.NewHandler(b.L1.Pipe())
 	default:
-		l1 = std.NewHandler(l1conn)
+		l1 = std.NewHandler(b.L1.Pipe())
 	}
 	var l2 handlers.Handler
 	if cfg.Orca == "l1only" {
 		l2, _ = handlers.NilHandler()
+	} else if cfg.L2Sock != "" {
+		l2 = batched.NewHandler(cfg.L2Sock, BatchOpts)
 	} else {
 		l2 = std.NewHandler(b.L2.Pipe())
 	}
